@@ -1941,7 +1941,8 @@ LEVEL_TEXT = ('Machine-checked Coq theorems about an executable model of the rea
               'renders - so the round trip also holds when read() detects the format from the content (C01_written_detected, '
               'C01_auto_roundtrip, C01_gff_fts_detected, C01_gff_fts_auto, C01_fasta_sniff_leading_ws, C01_fasta_sniff_leading_ws_any, '
               'C01_jdump_no_tab); each plugin has exactly one reader and one writer entry point, so read() and iter_() run the same '
-              'function and "no read / write support" cannot happen (C01_plugins_complete); the last '
+              'function and "no read / write support" cannot happen (C01_plugins_complete); detect() is first-match in the plugin order '
+              'fasta, genbank, stockholm, gff, sjson (C01_detect_order); the last '
               'suffix of the base name decides the format of write(fname) whatever other dots, suffixes and directories the name has, '
               'names without suffix and hidden files have none (C01_basename_dir, C01_detect_ext_last_suffix, C01_ext_of_no_suffix, '
               'C01_ext_of_hidden, C01_ext_table_ok) and writing by name round-trips (C01_byname_roundtrip); interleaved Stockholm '
